@@ -697,6 +697,7 @@ func translateExt(fset *token.FileSet, load fileLoader, sp spec, known map[strin
 	if fd == nil {
 		fail(token.Position{Filename: sp.File}, "function %s (recv %q) not found", sp.Func, sp.Recv)
 	}
+	applyBind(fd, sp)
 	if sp.Frag != nil {
 		fd = fragmentFunc(fset, fd, sp)
 	}
@@ -1138,6 +1139,15 @@ func fragmentFunc(fset *token.FileSet, fd *ast.FuncDecl, sp spec) *ast.FuncDecl 
 		printer.Fprint(&b, fset, s)
 		return strings.Join(strings.Fields(strings.SplitN(b.String(), "\n", 2)[0]), " ")
 	}
+	// hasPrefixAny: the line starts with one of the `|`-separated alternatives
+	hasPrefixAny := func(l, alts string) bool {
+		for _, a := range strings.Split(alts, "|") {
+			if strings.HasPrefix(l, a) {
+				return true
+			}
+		}
+		return false
+	}
 	var found []ast.Stmt
 	matches := 0
 	if fr.Field != "" {
@@ -1191,7 +1201,7 @@ func fragmentFunc(fset *token.FileSet, fd *ast.FuncDecl, sp spec) *ast.FuncDecl 
 			return fr.Case == ""
 		}
 		for i, s := range b.List {
-			if !strings.HasPrefix(line(s), fr.First) {
+			if !hasPrefixAny(line(s), fr.First) {
 				continue
 			}
 			if fr.Has != "" {
@@ -1203,7 +1213,7 @@ func fragmentFunc(fset *token.FileSet, fd *ast.FuncDecl, sp spec) *ast.FuncDecl 
 			}
 			matches++
 			for j := i; j < len(b.List); j++ {
-				if strings.HasPrefix(line(b.List[j]), fr.Last) {
+				if hasPrefixAny(line(b.List[j]), fr.Last) {
 					found = b.List[i : j+1]
 					break
 				}
@@ -1467,10 +1477,11 @@ func makeLoader(fset *token.FileSet, repo string, cache map[string]*ast.File) fi
 		if f, ok := cache[rel]; ok {
 			return f
 		}
-		f, err := parser.ParseFile(fset, filepath.Join(repo, rel), nil, parser.SkipObjectResolution)
+		f, err := parser.ParseFile(fset, filepath.Join(repo, rel), nil, 0)
 		if err != nil {
 			fail(token.Position{Filename: rel}, "%v", err)
 		}
+		prepareFile(fset, f)
 		cache[rel] = f
 		return f
 	}
